@@ -261,15 +261,21 @@ def h5_bytes(datasets):
     return b.getvalue()
 
 
-def sph_bytes(a, order="01", extra_fields=()):
-    """mono 16-bit PCM NIST SPHERE (the only SPHERE flavour this property exercises)"""
+def sph_bytes(a, order="01", extra_fields=(), hsize=1024):
+    """mono 16-bit PCM NIST SPHERE (the only SPHERE flavour this property exercises).  `hsize` > 1024 gives a
+    longer header block whose sample fields (and `end_head`) lie beyond the first 1024 bytes: a long comment
+    field comes first, as real corpora with large headers have them."""
     assert a.ndim == 1 and a.dtype == np.int16
-    lines = ["NIST_1A", "   1024", "sample_count -i %d" % len(a), "sample_n_bytes -i 2", "channel_count -i 1",
-             "sample_byte_format -s2 %s" % order, "sample_rate -i 8000", "sample_coding -s3 pcm"]
+    lines = ["NIST_1A", "%7d" % hsize]
+    if hsize > 1024:
+        filler = "x" * 200
+        lines += ["comment_%02d -s%d %s" % (i, len(filler), filler) for i in range(5)]
+    lines += ["sample_count -i %d" % len(a), "sample_n_bytes -i 2", "channel_count -i 1",
+              "sample_byte_format -s2 %s" % order, "sample_rate -i 8000", "sample_coding -s3 pcm"]
     lines += list(extra_fields) + ["end_head"]
     h = ("\n".join(lines) + "\n").encode()
-    assert len(h) <= 1024
-    h += b" " * (1024 - len(h))
+    assert len(h) <= hsize
+    h += b" " * (hsize - len(h))
     return h + a.astype(">i2" if order == "10" else "<i2").tobytes()
 
 
@@ -671,7 +677,7 @@ def build(case, root):
         a = audio_array(seed, case["n"], 1, 2)
         if a[:2].tobytes() == b"ajkg":
             a[0] ^= 1
-        data = sph_bytes(a, case["order"])
+        data = sph_bytes(a, case["order"], hsize=(1024, 1024, 2048, 3072)[(seed + case["n"]) % 4])
         exp = a
     elif c == "npy":
         exp = rand_array(seed, tuple(case["shape"]), case["dtype"])
